@@ -58,6 +58,25 @@ fn generic_build_line(ty: &str, f: [&str; 4], qs: &[(&str, &str)]) -> String {
     }
 }
 
+/// the same build through Cow::Borrowed and Cow::Owned (the generic API exists in every build)
+fn cow_build_line(ty: &str, f: [&str; 4], qs: &[(&str, &str)], borrowed: bool) -> String {
+    use std::borrow::Cow;
+    match guarded(|| {
+        let pt: Cow<'static, str> = if borrowed { Cow::Borrowed(crate::builders::intern(ty)) } else { Cow::Owned(ty.to_owned()) };
+        let mut b = GenericPurlBuilder::new(pt, f[1]).with_namespace(f[0]).with_version(f[2]).with_subpath(f[3]);
+        for (k, v) in qs {
+            b = match b.with_qualifier(*k, *v) {
+                Ok(b) => b,
+                Err(e) => return format!("KEYERR {e}"),
+            };
+        }
+        outcome_line::<Cow<'static, str>>(b.build())
+    }) {
+        Ok(l) => l,
+        Err(m) => format!("PANIC {m}"),
+    }
+}
+
 #[cfg(feature = "typed")]
 fn typed_build_line(ty: &str, f: [&str; 4], qs: &[(&str, &str)]) -> Option<String> {
     let pt = <purl::PackageType as Flavor>::mk(ty)?;
@@ -210,7 +229,7 @@ fn run_chunk(id: &str, tier: Tier, verbose: bool) -> ChunkOut {
                 qsets.push(vec![("checksum", v)]);
             }
             qsets.push(vec![("!", "v")]);
-            for ty in ["t", "T.1+x-", "!", "npm", "PyPI", "maven"] {
+            for ty in ["t", "T.1+x-", "!", "npm", "PyPI", "maven", "NPM", "Cargo"] {
                 for fi in 0..4 {
                     for fj in 0..4 {
                         if fi == fj {
@@ -225,6 +244,10 @@ fn run_chunk(id: &str, tier: Tier, verbose: bool) -> ChunkOut {
                                 let g = generic_build_line(ty, f, qs);
                                 let t = typed_build_line(ty, f, qs);
                                 out.push(&input, g, t, verbose);
+                                if qs.is_empty() {
+                                    out.push(&format!("cow-borrowed|{input}"), cow_build_line(ty, f, qs, true), None, verbose);
+                                    out.push(&format!("cow-owned|{input}"), cow_build_line(ty, f, qs, false), None, verbose);
+                                }
                             }
                         }
                     }
